@@ -43,7 +43,7 @@ func init() {
 		Run:          Run,
 		MaxSteps:     1500000,
 		QuickRuns:    10000,
-		ThoroughSecs: 600,
+		ThoroughSecs: 400,
 		Rule: "one run = one generated relay configuration (2-5 servers drawn over direct tunnel, none, socks5 with/without auth, http with/without auth, " +
 			"ss2022-128/256 single- and multi-user, TCP and UDP listeners in generic and mmsg batch modes; 1-3 proxied clients over none, socks5, http, ss2022 " +
 			"plus direct; a plain DNS resolver; a shuffled route list in which port criteria appear as single port, <=16 ranges and bit set (to- and from-), " +
